@@ -40,7 +40,7 @@ def _fields(c):
             c.lattice, [tuple(t) for t in c.trcl])
 
 
-@contract(ParseMCNPCell.parse_one_cell, props=['C15'], name='ParseMCNPCell.parse_one_cell[LIKE-BUT]', status='B')
+@contract(ParseMCNPCell.parse_one_cell, props=['C15', 'C05', 'C09', 'C12', 'C04'], name='ParseMCNPCell.parse_one_cell[LIKE-BUT]', status='B')
 class _LikeBut:
     """parse(LIKE n BUT changes) == parse(card n with the listed parameters overridden), field by field (material,
     density, geometry, importance, universe, fill, fill transformation, TRCL), including a chain LIKE m BUT .. ->
